@@ -94,8 +94,40 @@ def triggerSending (confirmed : Bool) (h : H) : List Env → H × List Op
         let r := triggerSending confirmed (h.sentDatagram e.pack) rest
         (r.1, [.mode e.wants, .sent e.pack] ++ r.2)
 
+/-! ### connection.go `handleOnePacket`: how a received datagram is credited
+
+`handleOnePacket(rp)` FIRST calls `sentPacketHandler.ReceivedBytes(rp.Size())` — once, with the size of the whole
+datagram, before anything is parsed — and only then walks over the coalesced packets (`for len(data) > 0`):
+a packet with another destination connection ID or an unparsable header ends the walk, an unsupported version
+or an undecryptable packet is skipped, a short-header packet consumes the rest; every packet that was decrypted
+and whose frames were handled without error ends in `ReceivedPacket(level)`.  None of these iterations touches
+the byte counters. -/
+
+/-- what the walk does with one coalesced packet -/
+inductive Pkt
+  /-- decrypted and processed at this level: `ReceivedPacket(l)` -/
+  | processed (l : Level)
+  /-- skipped (undecryptable / buffered / duplicate / unsupported version): the walk continues -/
+  | skipped
+  /-- wrong connection ID, header parse error, or trailing garbage: the walk ends -/
+  | stop
+deriving Repr, DecidableEq
+
+/-- the calls the walk over the coalesced packets makes on the handler -/
+def walkCalls : List Pkt → List Op
+  | [] => []
+  | .processed l :: rest => .rcvPacket l :: walkCalls rest
+  | .skipped :: rest => walkCalls rest
+  | .stop :: _ => []
+
+/-- the calls `handleOnePacket` makes on the handler for a datagram of `size` bytes containing `pkts` -/
+def handleOnePacketCalls (size : Nat) (pkts : List Pkt) : List Op :=
+  .rcvBytes size :: walkCalls pkts
+
 /-- events of the connection as seen by the run loop -/
 inductive LoopOp
+  /-- a datagram of `size` bytes with these coalesced packets is handled by `handleOnePacket` -/
+  | datagram (size : Nat) (pkts : List Pkt)
   /-- a datagram of `n` bytes arrives and is attributed to the connection (`handleOnePacket`) -/
   | arrive (n : Nat)
   /-- one of its packets is decrypted and processed at level `l` -/
@@ -123,6 +155,9 @@ def LoopSt.step (s : LoopSt) : LoopOp → LoopSt
     let r := triggerSending confirmed s.h envs
     { h := r.1, calls := s.calls ++ r.2, wire := s.wire ++ wireOfCalls s.h r.2 }
   | .closeLocal size => { s with wire := s.wire ++ [.out size] }
+  | .datagram size pkts =>
+    let calls := handleOnePacketCalls size pkts
+    { h := calls.foldl H.apply s.h, calls := s.calls ++ calls, wire := s.wire ++ wireOfCalls s.h calls }
 
 def LoopOp.isClose : LoopOp → Bool
   | .closeLocal _ => true
